@@ -544,7 +544,9 @@ def _print_diff_str(diff: str) -> None:
     if sys.stdout.isatty():
         click.echo(colored_diff)
     else:
-        click.echo(diff)
+        # NOTE: color=True, or click removes escape sequences that
+        #   are part of the file contents from the output.
+        click.echo(diff, color=True)
 
 
 def _print_diff(cfg: config.Config, new_version: str) -> None:
